@@ -31,7 +31,7 @@ Definition json_of_children (ch : list (string * list bindings)) : json :=
 
 (** Canonical form of an observed result (sets are sorted the same way). *)
 Definition canon_obs (o : json) : json :=
-  let o := JObj (aremove "ttl_mismatch_d33" (aremove "ttl_mismatch_d42" (aremove "ttl_mismatch" (aremove "fired" (aremove "msg" (jO (jnorm o))))))) in
+  let o := JObj (aremove "ttl_mismatch_d42" (aremove "ttl_mismatch" (aremove "fired" (aremove "msg" (jO (jnorm o)))))) in
   let fix_list k (j : json) :=
     match jget k j with
     | Some (JArr l) =>
@@ -533,11 +533,7 @@ Definition judge_reload (sy0 sy' : system) (o : json) (now : Z) : bool * list st
   | Some l0, Some l1 =>
       let s0 := l_state l0 in
       if any_expired s0 now || failure_happened s0 then (false, [])
-      else (negb (facts_eqb (st_facts s0) (st_facts (l_state l1)) && facts_eqb (st_store s0) (st_store (l_state l1))),
-            (* D33: with the cron hooks installed a linear-state add that the hook rejects has already
-               written its record *)
-            if st_hooks s0 && negb (facts_eqb (st_facts s0) (st_store s0)) &&
-               match st_kind s0 with Linear => true | Indexed => false end then ["D33"] else [])
+      else (negb (facts_eqb (st_facts s0) (st_facts (l_state l1)) && facts_eqb (st_store s0) (st_store (l_state l1))), [])
   | _, _ => (false, [])
   end.
 
@@ -687,8 +683,6 @@ Definition step_acc (a : acc) (o : json) : acc :=
                     refuses an unsortable event depends on which keys its trie still has nodes for) *)
             else if match jget "ttl_mismatch_d42" obs with Some _ => true | None => false end
             then (true, ["D42"])
-            else if match jget "ttl_mismatch_d33" obs with Some _ => true | None => false end
-            then (true, ["D33"])
             else if loc_disabled sy0 (jfS "loc" o) t && negb amb && is_api_op (jfS "op" o)
             then (jfB "ok" obs, [])
                  (* C10: in a disabled location every operation reports an error *)
